@@ -273,7 +273,7 @@ def classify_writers(ctx, prog, scope=None, floor=14):
                 continue
             # (b) direct writes: arrays whole or fresh+prefix; lengths paired
             fresh = False
-            m = re.match(r"local:[A-Za-z0-9]*?_(\d+)", root)
+            m = re.match(r"local:\w*?_(\d+)(?!\w)", root)
             if m:
                 lnum = int(m.group(1))
                 org = sy.origin(("local", lnum, ""))
